@@ -50,6 +50,9 @@ impl<'a> Lexer<'a> {
             Some('/') if self.s.eat_if('/') => self.line_comment(),
             Some('/') if self.s.eat_if('*') => self.block_comment(),
 
+            Some(c) if c.is_ascii_digit() && self.at_digit_leading_identifier(c) => {
+                self.identifier(start)
+            }
             Some(c) if c.is_ascii_digit() => self.number(start, c),
             Some('-') => self.number(start, '-'),
             Some('+') => self.number(start, '+'),
@@ -111,6 +114,26 @@ impl<'a> Lexer<'a> {
             }
         }
         TokenKind::BlockComment
+    }
+
+    /// Identifiers may start with digits (`4Ops`, `8i`). After the leading digit
+    /// `c`, decides whether the word is such an identifier rather than a number:
+    /// the digits are followed by a letter or `_` that does not start a `0x..` or
+    /// `0b..` literal.
+    fn at_digit_leading_identifier(&self, c: char) -> bool {
+        let rest = self.s.after();
+        let digits = rest.bytes().take_while(u8::is_ascii_digit).count();
+        let mut following = rest[digits..].chars();
+        match following.next() {
+            Some('x') if c == '0' && digits == 0 => {
+                !following.next().is_some_and(|d| d.is_ascii_hexdigit())
+            }
+            Some('b') if c == '0' && digits == 0 => {
+                !following.next().is_some_and(|d| matches!(d, '0' | '1'))
+            }
+            Some(next) => is_identifier_start(next),
+            None => false,
+        }
     }
 
     fn number(&mut self, start: usize, c: char) -> TokenKind {
